@@ -18,50 +18,17 @@ Proof.
     rewrite BinarySingleNaN.B2SF_SF2B; reflexivity.
 Qed.
 
-Lemma format_small_Z i : (Z.abs i <= 2 ^ 53)%Z ->
-  generic_format radix2 (FLT_exp (3 - 1024 - 53) 53) (IZR i).
-Proof.
-  intros H. apply generic_format_FLT.
-  destruct (Z.eq_dec (Z.abs i) (2 ^ 53)) as [E|N].
-  - exists (Float radix2 (Z.sgn i) 53).
-    + unfold F2R. cbn [Fnum Fexp].
-      assert (Hi : i = (Z.sgn i * 2 ^ 53)%Z) by (destruct i; cbn [Z.sgn Z.abs] in *; lia).
-      rewrite Hi at 1. rewrite mult_IZR. f_equal.
-    + cbn [Fnum]. change (radix2 ^ 53)%Z with 9007199254740992%Z. destruct i; cbn [Z.sgn Z.abs]; lia.
-    + cbn [Fexp]. lia.
-  - exists (Float radix2 i 0).
-    + unfold F2R. cbn [Fnum Fexp bpow]. lra.
-    + cbn [Fnum]. change (radix2 ^ 53)%Z with (2 ^ 53)%Z. lia.
-    + cbn [Fexp]. lia.
-Qed.
-
-Theorem tcmp_mixed_partial : forall i r,
-  (Z.abs i <= 2 ^ 53)%Z -> is_finite 53 1024 r = true ->
-  tcmp (TInt i) (TReal r) = Some (Rcompare (IZR i) (B2R 53 1024 r)).
-Proof.
-  intros i r Hi Hr. unfold tcmp. cbn [is_real orb to_sf].
-  rewrite sf_of_Z_normalize, SFcompare_Bcompare.
-  pose proof (binary_normalize_correct 53 1024 (eq_refl _) (eq_refl _) BinarySingleNaN.mode_NE i 0 false) as C.
-  fold (f64_of_Z i) in C.
-  assert (F : F2R (Float radix2 i 0) = IZR i) by (unfold F2R; cbn [Fnum Fexp bpow]; lra).
-  rewrite F in C.
-  rewrite round_generic in C; [|apply valid_rnd_N|apply format_small_Z, Hi].
-  rewrite Rlt_bool_true in C.
-  - destruct C as [CR [CF _]]. rewrite Bcompare_correct by assumption. rewrite CR. reflexivity.
-  - rewrite <- abs_IZR. apply Rle_lt_trans with (IZR (2 ^ 53)); [apply IZR_le, Hi|].
-    change (bpow radix2 1024) with (IZR (2 ^ 1024)). apply IZR_lt. reflexivity.
-Qed.
-
-(* beyond 2^53 the integer is rounded before the comparison (finding A-30) *)
+(* before d3f91fb the integer was rounded to f64 first: 2^53+1 <= 2^53.0 held (finding A-30) *)
 Definition r_two53 : f64 := B754_finite 53 1024 false 4503599627370496 1 eq_refl.
 
-Theorem tcmp_mixed_refuted :
+Theorem tcmp_legacy_mixed_refuted :
   exists i r, is_finite 53 1024 r = true /\ (Z.abs i <= 2 ^ 53 + 1)%Z /\
-    tcmp (TInt i) (TReal r) = Some Eq /\ tle (TInt i) (TReal r) = true /\
-    Rcompare (IZR i) (B2R 53 1024 r) = Gt.
+    tcmp_legacy (TInt i) (TReal r) = Some Eq /\
+    Rcompare (IZR i) (B2R 53 1024 r) = Gt /\
+    tcmp (TInt i) (TReal r) = Some Gt.
 Proof.
   exists (2 ^ 53 + 1)%Z, r_two53. split; [reflexivity|]. split; [vm_compute; discriminate|].
-  split; [vm_compute; reflexivity|]. split; [vm_compute; reflexivity|].
+  split; [vm_compute; reflexivity|]. split; [|vm_compute; reflexivity].
   apply Rcompare_Gt. unfold B2R, r_two53, F2R. cbn [Fnum Fexp cond_Zopp bpow radix2 radix_val Z.pow_pos Pos.iter Z.mul Pos.mul].
   change (2 ^ 53 + 1)%Z with 9007199254740993%Z. lra.
 Qed.
@@ -98,4 +65,25 @@ Proof.
       * rewrite Rmult_assoc, Rinv_l, Rmult_1_r, <- mult_IZR, Rcompare_IZR; [reflexivity|].
         apply not_0_IZR. apply Z.neq_sym, Z.lt_neq, Zpower_pos_gt_0. reflexivity.
       * apply IZR_lt, Zpower_pos_gt_0. reflexivity.
+Qed.
+
+(* Integer against Real is the numeric order, for every i64 and every finite real; the same
+   for whatever counts as an integer: nil as 0, a string or table as its length *)
+Theorem tcmp_mixed : forall i r,
+  (- two63 <= i < two63)%Z -> is_finite 53 1024 r = true ->
+  tcmp (TInt i) (TReal r) = Some (Rcompare (IZR i) (B2R 53 1024 r)).
+Proof.
+  intros i r Hi Hr. rewrite (proj1 (tcmp_int_real_exact i r Hi)). apply Z_cmp_sf_correct, Hr.
+Qed.
+
+Theorem tcmp_mixed_any : forall a r,
+  is_real a = false -> (- two63 <= to_i64 a < two63)%Z -> is_finite 53 1024 r = true ->
+  tcmp a (TReal r) = Some (Rcompare (IZR (to_i64 a)) (B2R 53 1024 r)) /\
+  tcmp (TReal r) a = Some (Rcompare (B2R 53 1024 r) (IZR (to_i64 a))).
+Proof.
+  intros a r Ha Hi Hr.
+  assert (E : tcmp a (TReal r) = cmp_int_real (to_i64 a) (sf r)) by (destruct a; try discriminate; reflexivity).
+  assert (E' : tcmp (TReal r) a = opp_oc (cmp_int_real (to_i64 a) (sf r))) by (destruct a; try discriminate; reflexivity).
+  rewrite E, E', cmp_int_real_exact, Z_cmp_sf_correct by assumption. split; [reflexivity|].
+  cbn [opp_oc]. rewrite (Rcompare_sym (B2R 53 1024 r)). reflexivity.
 Qed.
